@@ -17,6 +17,17 @@ THEOREMS = [
     "C01_no_error",
     "C01_progress",
     "C01_terminates",
+    "C01_fine_refines",
+    "C01_fine_order",
+    "C01_fine_at_most_once",
+    "C01_fine_once",
+    "C01_fine_value",
+    "C01_fine_clean",
+    "C01_fine_progress",
+    "C01_fine_terminates",
+    "C01_fine_atomic",
+    "C01_fine_pinned_witness",
+    "C01_fine_pinned_not_once",
 ]
 RULE = (
     "random acyclic data graphs over 2..N term nodes inserted in random (non-topological) order, 3 input slots "
@@ -29,7 +40,10 @@ TRUSTED = [
     "AccumulatingInputSignal.__call__ at the granularity 'a completion callback is one atomic action'",
     "the wiring observed on the implementation (ran-connection order, starting-node order) is an input of the "
     "model and is checked against the theorem's hypothesis WF by the verified decision procedure FinDag.check",
-    "CtlExecutor / schedule points call the original methods; thread pre-emption inside a callback is not modelled",
+    "CtlExecutor / schedule points call the original methods",
+    "fine mode (Model/ExecFine.lean, harness/pwh/execfine.py): the done-callback of an executor child runs on its own "
+    "thread and is stepped in two halves around its two bookkeeping calls on the parent; pre-emption at other "
+    "points of the callback (inside _finish_run before the first call, inside either call) is not modelled",
 ]
 ASSUMPTIONS = ["wrapped functions are deterministic; executor jobs complete exactly once"]
 
@@ -101,6 +115,18 @@ def gen_cases(rng, tier):
         yield {"n": n, "order": order, "slots": slots, "exec": ex, "fails": [],
                "mode": rng.choice(["ctl", "ctl", "ctl-cloudpickle"]),
                "choices": [rng.randint(0, 4) for _ in range(4 * n)]}
+    # fine interleaving: callbacks on their own thread, stepped in two halves
+    for _ in range(60 if tier == "quick" else 600):
+        n = rng.randint(2, 5 if tier == "quick" else 8)
+        order, slots = gen_dag(rng, n, 0.6)
+        ex = [i for i in range(n) if rng.random() < 0.6] or [rng.randrange(n)]
+        yield {"n": n, "order": order, "slots": slots, "exec": ex, "fails": [], "mode": "ctl", "fine": True,
+               "choices": [rng.randint(0, 5) for _ in range(6 * n)]}
+    for _ in range(6 if tier == "quick" else 40):
+        n = rng.randint(2, 3 if tier == "quick" else 4)
+        order, slots = gen_dag(rng, n, 0.7)
+        yield {"n": n, "order": order, "slots": slots, "exec": list(range(n)), "fails": [], "mode": "ctl",
+               "fine": True, "choices": [], "dfs": 60 if tier == "quick" else 400}
     if tier == "thorough":
         # exhaustive schedules on small graphs: every completion order at every schedule point
         for _ in range(40):
@@ -111,6 +137,11 @@ def gen_cases(rng, tier):
 
 
 def corpus():
+    # the finish/emit gap: chain 0 -> 1, node 0 on an executor, the loop re-tests between the two calls
+    yield {"n": 2, "order": [0, 1], "slots": {"0": [[], [], []], "1": [[0], [], []]}, "exec": [0], "fails": [],
+           "mode": "ctl", "fine": True, "choices": [0, 0, 0, 0]}
+    yield {"n": 3, "order": [2, 0, 1], "slots": {"0": [[], [], []], "1": [[0], [], []], "2": [[1], [0], []]},
+           "exec": [0, 1], "fails": [], "mode": "ctl", "fine": True, "choices": [], "dfs": 80}
     # diamond, both middle nodes out, completed in reverse order
     yield {"n": 4, "order": [3, 0, 2, 1], "slots": {"0": [[], [], []], "1": [[0], [], []], "2": [[0], [], []],
                                                      "3": [[1, 2], [1], []]},
@@ -186,7 +217,102 @@ def _run_once(case, choices):
     return res, sched.options_seen
 
 
+def _run_once_fine(case, choices):
+    """as `_run_once`, but callbacks run on their own threads and are stepped in two halves"""
+    from . import nodes
+    from .execfine import FineInstrument, FineScheduler
+    from .execsim import CtlExecutor, Stuck, term_str
+
+    nodes.reset()
+    wf, ns = build(case)
+    sched = FineScheduler(choices, ident=lambda owner: owner.label[1:])
+    exe = CtlExecutor(sched, "ctl")
+    for i in case["exec"]:
+        ns[i].executor = exe
+    wiring = {}
+
+    import pyiron_workflow.nodes.composite as comp
+
+    lab = lambda l: int(l[1:])  # noqa: E731
+    outcome, ret = "ok", None
+    with FineInstrument(sched):
+        orig_on_run = comp.Composite._on_run
+
+        def on_run(self_):
+            if self_ is wf and not wiring:
+                wiring["starters"] = [int(n.label[1:]) for n in self_.starting_nodes]
+                wiring["down"] = {
+                    i: [int(c.owner.label[1:]) for c in ns[i].signals.output.ran.connections] for i in ns
+                }
+            return orig_on_run(self_)
+
+        comp.Composite._on_run = on_run
+        try:
+            ret = wf.run()
+        except Stuck as e:
+            outcome = f"stuck:{e}"
+        except BaseException as e:  # noqa: BLE001
+            outcome = f"raised:{type(e).__name__}"
+        finally:
+            comp.Composite._on_run = orig_on_run
+            # the state at the moment run() returned — before anything still parked is released
+            snap = {
+                "exec_log": [lab(l) for l in wf.provenance_by_execution],
+                "done_log": [lab(l) for l in wf.provenance_by_completion],
+                "flags": {i: (bool(ns[i].running), bool(ns[i].failed)) for i in ns},
+                "outs": {i: term_str(ns[i].outputs.o.value) for i in ns},
+                "calls": [c[0] for c in nodes.CALL_LOG],
+                "running_children": sorted(lab(l) for l in wf.running_children),
+                "wf_running": bool(wf.running),
+                "parked": sorted(int(cb.k) for cb in sched.parked),
+                "unstarted_jobs": len(sched.jobs),
+                "events": [(k, lab(l)) for (k, l, p) in sched.log if p == "w"],
+            }
+            sched.release_all()
+    res = {
+        "fine": True,
+        "outcome": outcome,
+        "wiring": wiring,
+        "trace": list(sched.tokens),
+        "first_calls": sorted(set(w for _k, w in sched.first_calls)),
+        **snap,
+        "late": [int(t.split(":")[2]) for t in sched.tokens if t.startswith("L:")],
+        "calls_after_release": [c[0] for c in nodes.CALL_LOG],
+        "wf_failed": bool(wf.failed),
+        "late_jobs": len(sched.jobs),
+        "ret": None if ret is None else {k: term_str(v) for k, v in dict(ret).items()},
+        "open_outputs": None,
+    }
+    return res, sched.options_seen
+
+
+def obs_lines_fine(case, r):
+    n = case["n"]
+    end = "exited" if r["outcome"] == "ok" else r["outcome"]
+
+    def st(i):
+        run, failed = r["flags"][i]
+        if run:
+            return "out"
+        if failed:
+            return "failed"
+        return "done" if i in r["done_log"] else "idle"
+
+    return [
+        f"end {end}",
+        f"exec [{','.join(map(str, r['exec_log']))}]",
+        f"doneset [{','.join(map(str, sorted(r['done_log'])))}]",
+        "st " + " ".join(f"{i}:{st(i)}" for i in range(n)),
+        "calls " + " ".join(f"{i}:{r['calls'].count(i)}" for i in range(n)),
+        "out " + " ".join(f"{i}:{r['outs'][i]}" for i in range(n)),
+        f"running [{','.join(map(str, r['running_children']))}]",
+        f"late [{','.join(map(str, r['late']))}]",
+    ]
+
+
 def obs_lines(case, r):
+    if r.get("fine"):
+        return obs_lines_fine(case, r)
     """the implementation's observations in the driver's format (without the variant tag)"""
     n = case["n"]
     end = "exited" if r["outcome"] in ("ok", "raised:FailedChildError") else (
@@ -214,16 +340,24 @@ def obs_lines(case, r):
 
 
 def run_impl(case):
+    once = _run_once_fine if case.get("fine") else _run_once
     if case.get("dfs"):
         from .execsim import explore
 
         results = []
-        for _prefix, res in explore(lambda ch: _run_once(case, ch), limit=case["dfs"]):
+        for _prefix, res in explore(lambda ch: once(case, ch), limit=case["dfs"]):
             results.append(res)
         first = results[0]
         return {"obs": obs_lines(case, first), "runs": results, "r": first,
-                "stats": {"schedules": len(results), "dfs_cases": 1}}
-    r, _seen = _run_once(case, list(case["choices"]))
+                "stats": {"schedules": len(results), "dfs_cases": 1,
+                          **({"fine_schedules": len(results),
+                              "fine_gap_crossed": sum(1 for x in results if x["late"])} if case.get("fine") else {})}}
+    r, _seen = once(case, list(case["choices"]))
+    if case.get("fine"):
+        stats = {"nodes": case["n"], "on_exec": len(case["exec"]), "fine_cases": 1, "fine_halves": len(r["trace"]),
+                 "fine_gap_crossed": 1 if r["late"] else 0, f"outcome:{r['outcome']}": 1,
+                 **{f"first_call:{w}": 1 for w in r["first_calls"]}}
+        return {"obs": obs_lines(case, r), "runs": [r], "r": r, "stats": stats}
     stats = {"nodes": case["n"], "on_exec": len(case["exec"]), "completions": len(r["trace"]),
              f"mode:{case.get('mode')}": 1, f"outcome:{r['outcome']}": 1,
              "nested_completions": sum(1 for t in r["trace"] if not t.startswith("s:"))}
@@ -268,6 +402,10 @@ def _model_input_one(case, r):
     lines.append("exec " + " ".join(map(str, case["exec"])))
     lines.append("fails " + " ".join(map(str, case["fails"])))
     lines.append("rank " + " ".join(map(str, _rank(case))))
+    if r.get("fine"):
+        lines.append("fsched " + " ".join(r["trace"]))
+        lines.append("frun")
+        return lines
     lines.append("sched " + " ".join(r["trace"]))
     lines.append("run")
     return lines
@@ -296,8 +434,8 @@ def _diff_one(case, mine, model):
         return {"index": 0, "impl": "wiring observed on the implementation", "model": model[:1],
                 "why": "the wiring does not satisfy the hypothesis WF of the theorems"}
     best = None
-    for tag in ("P", "R", "X", "Y"):
-        theirs = [l[2:] for l in model if l.startswith(tag + " ")][: len(mine)]
+    for tag in (("Fp", "Fr") if any(l.startswith("Fp ") for l in model) else ("P", "R", "X", "Y")):
+        theirs = [l[len(tag) + 1:] for l in model if l.startswith(tag + " ")][: len(mine)]
         if theirs == mine:
             STATS_VARIANT[tag] = STATS_VARIANT.get(tag, 0) + 1
             return None
@@ -314,7 +452,10 @@ def check_run(case, r):
     fails = []
     n = case["n"]
     ref = reference(case)
-    sig = lambda clause: {"clause": clause, "exec": bool(case["exec"]), "faults": bool(case["fails"])}  # noqa: E731
+    fine = bool(r.get("fine"))
+    sig = lambda clause: {"clause": clause, "exec": bool(case["exec"]), "faults": bool(case["fails"]),  # noqa: E731
+                          **({"fine": True, "gap": bool(r.get("late"))} if fine else {})}
+    fin_ev = "land" if fine else "finish"  # fine mode: the upstream's result is in place (before its bookkeeping)
     if r["outcome"] != "ok":
         fails.append({"clause": "run-did-not-return-normally", "detail": r["outcome"], "signature": sig("outcome")})
         return fails
@@ -330,16 +471,19 @@ def check_run(case, r):
     for i in range(n):
         for ups in case["slots"][str(i)]:
             for j in ups:
-                if ("start", i) in pos and not (("finish", j) in pos and pos[("finish", j)] < pos[("start", i)]):
+                if ("start", i) in pos and not ((fin_ev, j) in pos and pos[(fin_ev, j)] < pos[("start", i)]):
                     fails.append({"clause": "started-before-upstream-finished",
                                   "detail": f"{i} started before {j} finished: {r['events']}", "signature": sig("order")})
     for i in range(n):
         if r["outs"][i] != ref[i]:
             fails.append({"clause": "output-differs-from-plain-composition",
                           "detail": f"node {i}: {r['outs'][i]} vs {ref[i]}", "signature": sig("value")})
-    if r["wf_running"] or any(run for run, _f in r["flags"].values()) or r["late_jobs"]:
-        fails.append({"clause": "something-left-running", "detail": str(r["flags"]), "signature": sig("running")})
-    if r["ret"] != r["open_outputs"]:
+    if r["wf_running"] or any(run for run, _f in r["flags"].values()) or r["late_jobs"] or (
+            fine and (r["parked"] or r["unstarted_jobs"] or r["running_children"])):
+        fails.append({"clause": "something-left-running",
+                      "detail": f"flags={r['flags']} parked callbacks={r.get('parked')} jobs={r.get('unstarted_jobs')}",
+                      "signature": sig("running")})
+    if not fine and r["ret"] != r["open_outputs"]:
         fails.append({"clause": "return-value-differs-from-outputs", "detail": f"{r['ret']} vs {r['open_outputs']}",
                       "signature": sig("return")})
     return fails
